@@ -6,6 +6,8 @@ model.  They are the search for a failing input; they never stand in for a theor
 a dict {prop, clause, step, detail, sig}."""
 from collections import Counter
 
+from .names import INVALID_ADDRS
+
 WEEK = 604800
 MAX_SAFE_INT = 9007199254740990
 NANOS = 10 ** 9
@@ -190,7 +192,9 @@ def purchase_view(ctx, o, caller, lid, bid):
     now = int(o["time_ns"])
     seller_rates = registered_rates(o, [c for c, _ in l["for_sale"]["nfts"]])  # charged to the bucket
     buyer_rates = registered_rates(o, [c for c, _ in b["funds"]["nfts"]])      # charged to the listing
-    base = (l["status"] == "FinalizedReady" and l["claimant"] is None and (l["wl"] is None or l["wl"] == caller)
+    wl0 = first_reservation(ctx.s, lid, len(ctx.s.steps))
+    wl = l["wl"] if wl0 is NOTSEEN else wl0
+    base = (l["status"] == "FinalizedReady" and l["claimant"] is None and (wl is None or wl == caller)
             and gb_counter(b["funds"]) == gb_counter(l["ask"])
             and len(gb_counter(b["funds"])) == len(b["funds"]["native"]) + len(b["funds"]["cw20"]) + len(b["funds"]["nfts"])
             and sum(x[1] for x in seller_rates) <= 5000 and sum(x[1] for x in buyer_rates) <= 5000
@@ -259,6 +263,12 @@ def m_refused_no_effect(ctx, st):
 def m_c03(ctx, st, hist):
     op = st["op"]
     if st["outcome"] != "ok":
+        if op["t"] == "exec" and op["msg"]["k"] == "withdraw_purchased" and not op["funds"] and op.get("fail") is None:
+            l = lmap(st["pre"]).get((op["sender"], op["msg"]["id"]))
+            if l is not None and l["claimant"] == op["sender"] and not ctx.has_hostile(l["for_sale"]) \
+                    and not st["pre"].get("hostile_fail"):
+                ctx.add("C03", "claim_refused", st["i"], "%s bought listing %s and is refused its goods (status %s): claimable zero times"
+                        % (op["sender"], op["msg"]["id"], l["status"]))
         return
     mm = market_msg(op)
     if mm is None:
@@ -318,11 +328,18 @@ NOTSEEN = object()
 
 
 def first_reservation(sess, lid, before):
-    """whitelisted buyer of listing lid as first stored (NOTSEEN if it existed from the start)"""
+    """whitelisted buyer of listing lid as *asked for* by the message that created it (falling back to the record as first
+    stored); NOTSEEN if the listing existed from the start.  No message can change a reservation afterwards."""
     for st in sess.steps[:before]:
         if by_id(st["pre"], lid) is None:
             l = by_id(st["post"], lid)
             if l is not None:
+                op = st["op"]
+                m = op.get("msg") if op["t"] == "exec" else op.get("inner")
+                if op["t"] == "exec" and m and m.get("k") in ("receive", "receive_nft"):
+                    m = m.get("inner")
+                if m and m.get("k", "").startswith("create_listing") and "wl" in m and m["wl"] not in INVALID_ADDRS:
+                    return m["wl"]
                 return l["wl"]
     return NOTSEEN
 
@@ -330,6 +347,11 @@ def first_reservation(sess, lid, before):
 def m_c04(ctx, st):
     op = st["op"]
     a = actor(op)
+    if op["t"] == "exec" and op["msg"]["k"] in ("receive", "receive_nft") and st["outcome"] == "ok" \
+            and a not in ctx.hostiles and a not in ctx.cw20s and a not in ctx.colls and a != ctx.market:
+        # the hook entry points belong to token contracts: a plain account calling one directly (naming whomever as depositor)
+        # acts on records without owning a token that moved
+        ctx.add("C04", "hook_call_by_user_accepted", st["i"], "%s called %s directly for depositor %r and was accepted" % (a, op["msg"]["k"], op["msg"].get("sender")))
     if a is None or a in ctx.hostiles or op["t"] in ("reg",):
         return
     if st["outcome"] != "ok":
@@ -385,6 +407,16 @@ def m_c05(ctx, st):
         # a token hook deposits exactly the token it announces: coins attached to the notification are not part of
         # any deposit, so an accepted one has moved assets that no record states (whoever the calling contract is)
         ctx.add("C05", "hook_accepted_with_coins", st["i"], "%s from %s accepted with %r attached: the coins are in no record" % (op["msg"]["k"], op["sender"], op["funds"]))
+    if op["t"] == "exec" and op["msg"]["k"] == "buy":
+        b = bmap(st["pre"]).get((a, op["msg"]["bid"]))
+        if b is not None and b["fee"] is not None:
+            paid = Counter()
+            for mm2 in st["msgs"]:
+                if mm2["kind"] == "fund_pool":
+                    for d, x in mm2["coins"]:
+                        paid[("n", d)] += int(x)
+            if paid != fee_counter(b["fee"]):
+                ctx.add("C05", "consumed_bucket_fee_not_paid", st["i"], "the bucket spent in this purchase carried the fee %r; the pool was sent %r" % (b["fee"], sorted(paid.items())))
     if a in ctx.hostiles:
         return
     wp, wq = wallets(st["pre"]), wallets(st["post"])
@@ -543,8 +575,16 @@ def m_c06_c11(ctx, st):
 
 
 def m_c11_refusal(ctx, st):
-    """exactly 50 % is allowed: a refusal whose only cause could be the cap at <= 5000 is reported by C02's monitor"""
-    return
+    """exactly 50 % is allowed, and every registered collection counts once however its NFTs are arranged: a purchase whose
+    terms are met (which includes distinct rates summing to at most 5000 on either side) and that involves registered
+    collections is not refused"""
+    op = st["op"]
+    if op["t"] != "exec" or op["msg"]["k"] != "buy" or st["outcome"] == "ok" or op.get("fail") is not None or op["funds"]:
+        return
+    v = purchase_view(ctx, st["pre"], op["sender"], op["msg"]["lid"], op["msg"]["bid"])
+    if v["met_strict"] and not v.get("hostile") and (v["seller_rates"] or v["buyer_rates"]):
+        ctx.add("C11", "within_cap_refused", st["i"], "purchase refused although the registered rates sum to %d / %d bps: %s"
+                % (sum(x[1] for x in v["seller_rates"]), sum(x[1] for x in v["buyer_rates"]), st["err"][-120:]))
 
 
 def m_c08(ctx, st, hist):
@@ -842,6 +882,8 @@ def m_c13(ctx, st, hist):
         for k, f in fp.items():
             if k in fq and fq[k] != f:
                 ctx.add("C13", "recorded_fee_changed", st["i"], "pending fee of %r changed from %r to %r" % (k, f, fq[k]))
+                ctx.add("C17", "recorded_fee_altered", st["i"], "the fee split recorded on %r (%r) was altered to %r by %s: fee + remainder no longer add up to what was paid"
+                        % (k, f, fq[k], op.get("msg", op).get("k", op["t"]) if isinstance(op.get("msg", op), dict) else op["t"]))
 
     if st["outcome"] == "ok" and op["t"] == "exec" and op.get("fail") is None and op["msg"]["k"] in PAYOUT_KINDS | {"buy"}:
         # a recorded fee leaves for the pool in the denomination it was recorded in, whatever is in force now
@@ -952,8 +994,8 @@ def m_c18(ctx, st):
             ctx.add("C18", "victim_record_changed", st["i"], "hostile %s changed %s %r through %r" % (h, kind, key, m["k"]))
     wp, wq = wallets(pre), wallets(post)
     for acct in set(wp) | set(wq):
-        if acct == h:
-            continue
+        if acct == h or acct == ctx.market:
+            continue  # (the contract's own deposits and payouts move the marketplace's holdings: C01 judges those)
         d = cdiff(wq.get(acct, Counter()), wp.get(acct, Counter()))
         if ctx.honest_only(Counter({k: abs(v) for k, v in d.items()})):
             ctx.add("C18", "honest_asset_moved", st["i"], "hostile call moved honest assets of %s: %r" % (acct, sorted(d.items())))
@@ -1020,6 +1062,20 @@ def m_reentrant(ctx, st):
             ctx.add("C03", "paid_out_record_still_stored", st["i"], "%s of %s by %s went through, yet the record is still stored" % (k, rid, sender))
 
 
+def m_c16_cycle(ctx, st):
+    """C16: a cycle attempt before the next-change time the fee query reports is refused, one after it is accepted.  The
+    reported time is the stored origin + one week (the query battery checks that the query says exactly that)."""
+    op = st["op"]
+    if op["t"] != "exec" or op["msg"]["k"] != "fee_cycle" or op["funds"] or op.get("fail") is not None:
+        return
+    now_s = int(st["pre"]["time_ns"]) // NANOS
+    nxt = int(st["pre"]["fee"]["last"]) + WEEK
+    if now_s < nxt and st["outcome"] == "ok":
+        ctx.add("C16", "cycle_accepted_before_next_change", st["i"], "cycle accepted at %d although the fee query reports next_change %d" % (now_s, nxt))
+    if now_s > nxt and st["outcome"] != "ok":
+        ctx.add("C16", "cycle_refused_after_next_change", st["i"], "cycle refused at %d although the fee query reports next_change %d" % (now_s, nxt))
+
+
 def m_c16_listed(ctx, st):
     """C16: a listed item is never already unpurchasable - a purchase attempted in the very state in which the market
     query listed the item, with a bucket that matches the ask, is not refused."""
@@ -1064,6 +1120,7 @@ def run_all(sess, ctx=None):
         m_c04(ctx, st)
         m_c05(ctx, st)
         m_c06_c11(ctx, st)
+        m_c11_refusal(ctx, st)
         m_c08(ctx, st, hist)
         m_c09(ctx, st, hist)
         m_c10(ctx, st, hist)
@@ -1074,4 +1131,5 @@ def run_all(sess, ctx=None):
         m_c18(ctx, st)
         m_c19(ctx, st)
         m_c16_listed(ctx, st)
+        m_c16_cycle(ctx, st)
     return ctx.findings
